@@ -24,7 +24,7 @@ def one_case(rng, tier):
 
 
 def generate(rng, tier):
-    n = 1500 if tier == "quick" else 30000
+    n = 4000 if tier == "quick" else 40000
     cases = [one_case(rng, tier) for _ in range(n)]
     info = {"rule": "random / degenerate terms (nullable-left concatenations, complements, intersections, nested loops); compiled automaton compared state by state with the model (numbering is deterministic), acceptance of all words <= k vs the SMT-LIB denotation, next() on every state x probe character incl. 0 and MAX (totality); non-trivial = at least one operator",
             "distribution": {"cases": n}}
